@@ -236,15 +236,33 @@ func (r *resolver) module(y *Module) error {
 	// expand and deviate AFTER uses because the targets we want to change
 	// might not exist until after uses are expanded
 	for _, a := range y.Augments() {
-
 		// augments might have uses too
 		if _, err := r.addDefinitions(a, a.popDataDefinitions()); err != nil {
 			return err
 		}
-
-		if err := r.expandAugment(a, y); err != nil {
-			return err
+	}
+	// the target of an augment may be what another augment of the module adds, whichever of
+	// the two is written first: one whose target is not there yet waits for the others
+	for pending := y.Augments(); len(pending) > 0; {
+		var waiting []*Augment
+		var firstMissing error
+		for _, a := range pending {
+			err := r.expandAugment(a, y)
+			if _, missing := err.(*augmentTargetMissing); missing {
+				waiting = append(waiting, a)
+				if firstMissing == nil {
+					firstMissing = err
+				}
+				continue
+			}
+			if err != nil {
+				return err
+			}
 		}
+		if len(waiting) == len(pending) {
+			return firstMissing
+		}
+		pending = waiting
 	}
 
 	for _, d := range y.Deviations() {
@@ -1133,6 +1151,14 @@ func (r *resolver) refine(target Definition, y *Refine) error {
 	return r.builder.LastErr
 }
 
+type augmentTargetMissing struct {
+	msg string
+}
+
+func (e *augmentTargetMissing) Error() string {
+	return e.msg
+}
+
 func (r *resolver) expandAugment(y *Augment, parent Meta) error {
 	if on, err := checkFeature(y); !on || err != nil {
 		return err
@@ -1147,7 +1173,7 @@ func (r *resolver) expandAugment(y *Augment, parent Meta) error {
 			// nothing to augment in this feature configuration
 			return nil
 		}
-		return fmt.Errorf("%s - augment target is not found %s", SchemaPath(y), y.ident)
+		return &augmentTargetMissing{fmt.Sprintf("%s - augment target is not found %s", SchemaPath(y), y.ident)}
 	}
 
 	targetChoice, targetIsChoice := target.(*Choice)
